@@ -260,7 +260,7 @@ def rule_call(repo: Repo) -> RuleResult:
 def rules(repo: Repo, tier: str) -> List[RuleResult]:
     return [
         rule_keywords(repo), rule_siblings(repo), rule_thread(repo),
-        c01.rule_nodrop(repo, "C10.nodrop", (TP,), 1, only={"TrajectoryParser.parse_state"}),
+        c01.rule_nodrop(repo, "C10.nodrop", (TP,), 1, only={"TrajectoryParser.parse_state"}, anchors=["TrajectoryParser.parse_state"]),
         c05.rule_value(repo, "C10.value", "TrajectoryParser.parse_state", "state_fluents"),
         c16.rule_export(repo, "C10.export", "TrajectoryExporter", "operator:"),
         rule_call(repo),
